@@ -35,6 +35,37 @@ def run_progs(out, sc, prop, params, label, nslices=12, shard_size=1500, backend
     return validate(out, sc, "TraceUrl", prop, shards, label)
 
 
+def run_witnesses(out, sc, prop, fields=None):
+    """the deterministic witness of every listed known finding of this property (vlib/witnesses.py), through the same driver and
+    the same trace specification as everything else"""
+    import json as _json
+
+    from ..core import run_driver
+    from ..report import load_known
+    from ..witnesses import W
+    by_driver = {}
+    for e in load_known(prop):
+        w = W.get((prop, e["id"]))
+        if w is None:
+            continue
+        call = dict(w[1])
+        if w[0] == "url" and "fields" not in call and fields:
+            call["fields"] = fields
+        by_driver.setdefault(w[0], []).append(call)
+    for drv, calls in by_driver.items():
+        shards = []
+        for be in ("c", "py"):
+            if drv == "quote":
+                if be == "py":
+                    continue          # the quote driver records both classes side by side in one process
+                shards += run_driver(sc, "quote", {"mode": "calls", "calls": calls}, f"witness-{prop}", backend=be, nslices=1)
+            else:
+                cf_ = sc.work / f"witness-{prop}-{drv}.json"
+                cf_.write_text(_json.dumps(calls))
+                shards += run_driver(sc, drv, {"calls_file": str(cf_)}, f"witness-{prop}-{drv}", backend=be, nslices=1)
+        validate(out, sc, "TraceQuote" if drv == "quote" else "TraceUrl", prop, shards, "known-finding-witnesses")
+
+
 VALUE_INVS = {
     "C01": ["Inv_C01"], "C03": ["Inv_C03"], "C07": ["Inv_C07_Accessors", "Inv_C07_AuthSplit", "Inv_C07_Recompose"],
     "C11": ["Frame"], "C15": ["Inv_C15"], "C19": ["Inv_C19_StrTotal"], "C17": ["Inv_C17", "Inv_C07_AuthSplit"],
